@@ -101,6 +101,7 @@ func destState(k *simunix.Kernel, c SeqCase) string {
 
 type plan struct {
 	Faults map[int]simunix.Fault
+	Names  map[string]simunix.Errno // every call of this name fails (a persistent condition)
 	Desc   string
 }
 
@@ -142,6 +143,10 @@ func seqRun(c SeqCase, p plan, acc *ev.Acc, mode string) {
 		}
 	}
 	fs := filesys.NewDirFs(".")
+	if len(p.Names) > 0 {
+		k.FaultNames = p.Names // from here on: the file system object itself was opened under normal conditions
+		k.MaxCalls = k.NCalls + 2000
+	}
 	buf := append([]byte(nil), datas[c.Data]...)
 	panicked := libh.Try(func() { fs.AtomicCreate(c.Where, "f", buf) })
 	hit := k.FaultHits > 0
@@ -229,6 +234,21 @@ func seqAll(tier string, shard, nshards int, acc *ev.Acc) {
 					for i, name := range calls {
 						for _, e := range []simunix.Errno{simunix.EIO, simunix.ENOSPC, simunix.EINVAL, simunix.EROFS, simunix.EDQUOT, simunix.EINTR, simunix.EBADF} {
 							seqRun(c, plan{Faults: map[int]simunix.Fault{first + i: {Err: e}}, Desc: fmt.Sprintf("fault:%s#%d=%v", name, i, e)}, acc, "fault")
+							acc.Add("faults_injected", 1)
+						}
+					}
+					// every kind of system call failing persistently (a read-only or full file system, a directory without
+					// permission, a file system without rename-over): whatever AtomicCreate tries next also fails
+					kinds := map[string]bool{}
+					for _, name := range calls {
+						kinds[name] = true
+					}
+					for name := range kinds {
+						for _, e := range []simunix.Errno{simunix.EIO, simunix.EPERM, simunix.EEXIST, simunix.EACCES, simunix.EROFS} {
+							if name == "openat" && e == simunix.EEXIST {
+								continue // "exists" for every fresh temporary name is not a condition a kernel produces
+							}
+							seqRun(c, plan{Names: map[string]simunix.Errno{name: e}, Desc: fmt.Sprintf("always:%s=%v", name, e)}, acc, "fault")
 							acc.Add("faults_injected", 1)
 						}
 					}
@@ -481,7 +501,7 @@ func main() {
 	acc.Counters["executions"] += acc.Counters["sequential_runs"] + acc.Counters["crash_images"]
 	os.Exit(acc.Done(ev.Finish{
 		Prop: "C13", Tier: *tier, Level: "model_checking", Start: start,
-		Rule:        fmt.Sprintf("DirFs.AtomicCreate over simunix: prior destination {absent,present} x leftover temp file {absent, empty, shorter, longer, same length} (planted at every plausible staging path) x data {0,1,3,5000 bytes} x directory; for each: visible state checked before every system call, durability of the inode checked at the instant the new content becomes visible, crash before every system call and after return x every post-crash image, every system call failing once with each of EIO, ENOSPC, EINVAL, EROFS, EDQUOT, EINTR, EBADF, every split of the write into <=3 short writes at boundary cuts. Concurrency: creator of d/f + optional second creator {same name, other name, other dir} + reader (2 x Open/ReadAt/Close) on DirFs (system calls atomic) and MemFs (preemption before every statement), all schedules with <= %d preemptions", bound),
+		Rule:        fmt.Sprintf("DirFs.AtomicCreate over simunix: prior destination {absent,present} x leftover temp file {absent, empty, shorter, longer, same length} (planted at every plausible staging path) x data {0,1,3,5000 bytes} x directory; for each: visible state checked before every system call, durability of the inode checked at the instant the new content becomes visible, crash before every system call and after return x every post-crash image, every system call failing once with each of EIO, ENOSPC, EINVAL, EROFS, EDQUOT, EINTR, EBADF, every kind of system call failing persistently with each of EIO, EPERM, EEXIST, EACCES, EROFS, every split of the write into <=3 short writes at boundary cuts. Concurrency: creator of d/f + optional second creator {same name, other name, other dir} + reader (2 x Open/ReadAt/Close) on DirFs (system calls atomic) and MemFs (preemption before every statement), all schedules with <= %d preemptions", bound),
 		Assumptions: []string{"crash model of simunix (ordered metadata journal, fsync commits it; unsynced page writes persist in any subset)", "errno and short-write injection are simulated", "system calls are atomic steps"},
 		Extra:       mcx.Extra(acc, map[string]any{"preemption_bound": bound}),
 	}))
